@@ -461,3 +461,73 @@ def r5g(ctx: Ctx) -> list[Ob]:
             else:
                 out.append(viol("R5g", c.qualname, inst, f"`{unparse(n)[:70]}` contracts several parameter tensors without promoting them to a common dtype: {strict} raises for a real and a complex operand, which the un-optimized graph (element-wise / kron / semiring casts) evaluates -- the optimizer's rewrite then makes the circuit raise under optimize=True only", loc))
     return out
+
+
+# ------------------------------------------------------------------------------------------ R5h
+def r5h(ctx: Ctx, modules: tuple[str, ...] = ("cirkit.backend.torch",)) -> list[Ob]:
+    """R5h -- the two axis idioms put axis 0 on the right side.
+
+    ``d if d >= 0 else d + len(shape)`` normalises a possibly negative axis: axis 0 must stay 0.
+    ``a if a < 0 else a + 1`` shifts an axis of the un-folded shape past the fold dimension: negative
+    axes count from the end and stay, *non-negative* axes -- 0 included -- move by one.  For every
+    conditional expression whose branches are ``X`` and ``X + E`` under a comparison of ``X`` with 0
+    the branch taken at ``X == 0`` is derived from the comparison operator: it has to be ``X + 1`` for
+    the fold shift and ``X`` for the normalisation.  (`a + 1 if a > 0 else a` leaves axis 0 on the
+    fold dimension: a Dirichlet initialiser along axis 0 then normalises across folds.)"""
+    out: list[Ob] = []
+    for f in ctx.repo.iter_functions():
+        if not f.module.name.startswith(modules):
+            continue
+        for n in walk_no_nested(f.node):
+            if not isinstance(n, ast.IfExp):
+                continue
+            t = n.test
+            if not (isinstance(t, ast.Compare) and len(t.ops) == 1):
+                continue
+            l, r = t.left, t.comparators[0]
+            op = t.ops[0]
+            zero_right = isinstance(r, ast.Constant) and r.value == 0 and not isinstance(r.value, bool)
+            zero_left = isinstance(l, ast.Constant) and l.value == 0 and not isinstance(l.value, bool)
+            if zero_right == zero_left:
+                continue
+            x = l if zero_right else r
+            xt = unparse(x)
+            # truth of the test at x == 0
+            if isinstance(op, (ast.GtE, ast.LtE, ast.Eq)):
+                at0 = True
+            elif isinstance(op, (ast.Gt, ast.Lt, ast.NotEq)):
+                at0 = False
+            else:
+                continue
+            br0, other = (n.body, n.orelse) if at0 else (n.orelse, n.body)
+
+            def plus(e: ast.AST) -> ast.AST | None:
+                if isinstance(e, ast.BinOp) and isinstance(e.op, ast.Add):
+                    if unparse(e.left) == xt:
+                        return e.right
+                    if unparse(e.right) == xt:
+                        return e.left
+                return None
+
+            incs = [(b, plus(b)) for b in (n.body, n.orelse)]
+            plain = [b for b, p in incs if unparse(b) == xt]
+            shifted = [(b, p) for b, p in incs if p is not None]
+            if len(plain) != 1 or len(shifted) != 1:
+                continue
+            inc = shifted[0][1]
+            loc = f"{f.module.relpath}:{n.lineno}"
+            if isinstance(inc, ast.Constant) and inc.value == 1:
+                kind, want_shifted = "fold-shift", True
+            elif "len(" in unparse(inc) or "ndim" in unparse(inc) or ".dim()" in unparse(inc):
+                kind, want_shifted = "normalise", False
+            else:
+                continue
+            inst = f"axis-zero:{kind}:{xt[:24]}"
+            taken_shifted = br0 is shifted[0][0]
+            if taken_shifted == want_shifted:
+                out.append(ok("R5h", f.qualname, inst, f"at {xt} == 0 the expression is `{unparse(br0)[:30]}`", loc))
+            elif kind == "fold-shift":
+                out.append(viol("R5h", f.qualname, inst, f"`{unparse(n)[:70]}` leaves axis 0 where it is: every non-negative axis of the un-folded shape, 0 included, lies one position further in the folded tensor -- axis 0 is then the fold dimension (the operation acts across folds)", loc))
+            else:
+                out.append(viol("R5h", f.qualname, inst, f"`{unparse(n)[:70]}` adds the rank to axis 0: a valid axis becomes out of range", loc))
+    return out
